@@ -59,6 +59,7 @@ type FuncContract struct {
 	loopInv   map[int][]specLine
 	loopMod   map[int][]string
 	loopComplete map[int]bool
+	loopEnsures map[int][]specLine
 	at        map[string][]specLine // site label -> assertions
 	atAssume  map[string][]specLine
 	atBefore  map[string][]specLine
@@ -448,6 +449,12 @@ func (a *Annotations) funcClause(cf *FuncContract, word, rest string, sl specLin
 			cf.loopMod[n] = append(cf.loopMod[n], strings.Fields(r3)...)
 		case "complete":
 			cf.loopComplete[n] = true
+		case "ensures":
+			// loop N ensures E: holds at the end of every iteration (checked at each back edge)
+			if cf.loopEnsures == nil {
+				cf.loopEnsures = map[int][]specLine{}
+			}
+			cf.loopEnsures[n] = append(cf.loopEnsures[n], sl)
 		default:
 			return fmt.Errorf("loop clause %q", kw)
 		}
